@@ -66,8 +66,25 @@ impl Violation {
 /// Process-wide occurrence counter per violation signature. Systems ask it before building an
 /// expensive detail message: after 64 occurrences of a signature the detail is skipped (the
 /// engine keeps the first occurrence of every signature and only counts the rest).
+thread_local! {
+    static ALWAYS_DETAIL: std::cell::Cell<bool> = const { std::cell::Cell::new(false) };
+}
+
+/// Runs `f` with the flood guard switched off on this thread: every violation built inside gets
+/// its detail text. For composite actions (pumped cycles) that re-label inner violations under a
+/// signature of their own, whose first occurrence must not come out blank.
+pub fn with_details<R>(f: impl FnOnce() -> R) -> R {
+    let old = ALWAYS_DETAIL.with(|c| c.replace(true));
+    let r = f();
+    ALWAYS_DETAIL.with(|c| c.set(old));
+    r
+}
+
 pub fn flood_guard(signature: &str) -> bool {
     use std::collections::HashMap;
+    if ALWAYS_DETAIL.with(|c| c.get()) {
+        return false;
+    }
     use std::sync::{OnceLock, RwLock};
     static SEEN: OnceLock<RwLock<HashMap<String, AtomicU64>>> = OnceLock::new();
     let m = SEEN.get_or_init(|| RwLock::new(HashMap::new()));
